@@ -224,13 +224,20 @@ def load_known_findings():
     return json.loads(p.read_text()).get("findings", [])
 
 
+EVID_DIR = Path(os.environ.get("VERIF_EVIDENCE_DIR") or (VERIF / "evidence"))
+REPLAY_DIR = Path(os.environ.get("VERIF_REPLAY_DIR") or (VERIF / "replays"))
+
+
 def write_replay(pid, obj):
-    d = VERIF / "replays" / pid
+    d = REPLAY_DIR / pid
     d.mkdir(parents=True, exist_ok=True)
     n = len(list(d.glob("*.json")))
     p = d / f"{n:04d}.json"
     p.write_text(json.dumps(obj, indent=1, default=str))
-    return p.relative_to(VERIF)
+    try:
+        return p.relative_to(VERIF)
+    except ValueError:
+        return p
 
 
 def main(argv=None):
@@ -334,8 +341,8 @@ def main(argv=None):
         "assumptions": list(getattr(prop, "ASSUMPTIONS", [])),
         "wall_s": round(wall, 2), "violations": len(violations),
     }
-    (VERIF / "evidence").mkdir(exist_ok=True)
-    (VERIF / "evidence" / f"{pid}.json").write_text(json.dumps(ev, indent=1, default=str))
+    EVID_DIR.mkdir(exist_ok=True, parents=True)
+    (EVID_DIR / f"{pid}.json").write_text(json.dumps(ev, indent=1, default=str))
     for rp, suffix in violations[:5]:
         print(f"VIOLATION property={pid} replay={rp}{suffix}")
     print(f"[{pid}] tier={args.tier} seed={seed} obligations={ob.discharged}/{ob.obligations} "
